@@ -193,6 +193,11 @@ class Interp:
         return any(b.split(".")[-1] in ("Enum", "IntEnum", "HasMemberMixin") or b.endswith("Enum") for b in c.bases)
 
     def enum_by_value(self, cls_name, value):
+        if isinstance(value, EnumVal):
+            if value.cls == cls_name:
+                return value  # EnumClass(member) is the member
+            if self._is_intenum(value) or self._is_strenum(value):
+                value = value.value
         for m in self.enum(cls_name).values():
             if m.value == value:
                 return m
@@ -1223,7 +1228,11 @@ class Interp:
                     target = k.methods[n.func.attr]
                     break
             if target is None:
-                if n.func.attr in ("__init__", "__new__"):
+                if n.func.attr == "__new__":
+                    # object.__new__(cls): a fresh, uninitialised instance of the class token passed in
+                    a0 = self.eval(n.args[0], env, func, depth) if n.args else selfv
+                    return Obj(a0.name if isinstance(a0, ClassTok) else func.cls.name)
+                if n.func.attr in ("__init__",):
                     return None
                 raise Uninterpretable(f"super().{n.func.attr} not found from {func.qual}")
             args = [self.eval(a, env, func, depth) for a in n.args]
@@ -1364,7 +1373,16 @@ class Interp:
                 return self.enum_by_value(f.name, args[0] if args else None)
             c = self.repo.cls(f.name)
             init = self.repo.lookup_method(c, "__init__")
-            o = Obj(f.name)
+            new = self.repo.lookup_method(c, "__new__")
+            if new is not None:
+                # Python's construction protocol: cls.__new__(cls, *args) and, when it returns an instance of cls,
+                # __init__ on whatever it returned (an interning __new__ hands back an existing object, which is then
+                # re-initialised)
+                o = self.call_func(new, args, kwargs, ClassTok(f.name), depth + 1)
+                if not (isinstance(o, Obj) and o.cls_name == f.name):
+                    return o
+            else:
+                o = Obj(f.name)
             if init is not None:
                 self.call_func(init, args, kwargs, o, depth + 1)
             elif any("dataclass" in d for k in self.repo.mro(c) for d in k.decorators):
@@ -1706,7 +1724,6 @@ def _codon_ctor(interp, selfv, args, kwargs):
 def std_interp(repo, extra_hooks=None, **kw) -> Interp:
     hooks = {
         "ObjectValidation.require_object_has_type": _noop,
-        "Codon": _codon_ctor,
     }
     if extra_hooks:
         hooks.update(extra_hooks)
